@@ -22,9 +22,26 @@ class Module:
         except SyntaxError as e:
             raise AnalysisError('module %s does not parse: %s' % (relpath, e))
         from .inline import inline_new_helpers, known_functions
+        self.folded = 0
+        if os.environ.get('VERIF_NO_NORMALIZE') != '1':
+            from .partial import partial_eval_module
+            self.folded += partial_eval_module(self.tree)      # tables looked up, table loops unrolled: helpers become inlinable
         self.inlined = inline_new_helpers(self.tree, name, known_functions())
         from .normalize import normalize_module
-        self.substituted = normalize_module(self.tree) if os.environ.get('VERIF_NO_NORMALIZE') != '1' else 0
+        self.substituted = 0
+        if os.environ.get('VERIF_NO_NORMALIZE') != '1':
+            from .partial import partial_eval_module
+            for _round in range(3):
+                self.substituted += normalize_module(self.tree)
+                n_pe = partial_eval_module(self.tree)
+                self.folded += n_pe
+                from .inline import local_functions_pass
+                n_lf = local_functions_pass(self.tree) if known_functions() is not None else []
+                if n_pe:
+                    n_lf = n_lf + inline_new_helpers(self.tree, name, known_functions())      # helpers that became plain calls through unrolling
+                self.inlined += n_lf
+                if not n_pe and not n_lf:
+                    break
         # (context and operator nodes are singletons shared by every tree of the process: they never get a parent)
         shared = (ast.expr_context, ast.operator, ast.boolop, ast.unaryop, ast.cmpop)
         for node in ast.walk(self.tree):
